@@ -11,14 +11,16 @@ from . import thr, tok
 from .c12 import sig, compact
 
 I = z3.Int
-BOUNDS = {"quick": [dict(what="saver", K=3, pre=2, to=1), dict(what="joiner", K=3, pre=1, to=1), dict(what="regions", K=3, pre=1, to=1)],
+BOUNDS = {"quick": [dict(what="saver", K=3, pre=2, to=1), dict(what="joiner", K=3, pre=1, to=1), dict(what="joiner", K=3, pre=1, to=1, sil0=True),
+                    dict(what="regions", K=3, pre=1, to=1)],
           "thorough": [dict(what="saver", K=5, pre=2, to=1), dict(what="saver", K=3, pre=3, to=2), dict(what="joiner", K=5, pre=2, to=1),
-                       dict(what="regions", K=5, pre=2, to=1), dict(what="saver+joiner", K=3, pre=2, to=1)]}
+                       dict(what="joiner", K=4, pre=2, to=1, sil0=True), dict(what="regions", K=5, pre=2, to=1), dict(what="saver+joiner", K=3, pre=2, to=1)]}
 TEMPLATE = "det_{id}_{start:.3f}_{end:.3f}_{duration:.2f}.wav"
 SIL_Q = 4   # silence duration in quarter samples
 
 
-def run_once(mods, e, s, what, K, data, val, cache_bytes, sil_q, fs):
+def run_once(mods, e, s, what, K, data, val, cache_bytes, sil_q, fs, skw=None):
+    skw = skw or thr.SPLIT_KW
     """drives the real workers; returns a dict of observations (all concrete on the path)"""
     W, core, util = mods["workers"], mods["core"], mods["util"]
     reader = util.AudioReader(data, block_dur=0.1, sr=thr.SR, sw=thr.SW, ch=thr.CH)
@@ -52,7 +54,7 @@ def run_once(mods, e, s, what, K, data, val, cache_bytes, sil_q, fs):
     def val2(frame):
         tok_blocks.append(bytes(frame))
         return val(frame)
-    tw = W.TokenizerWorker(src, observers, validator=val2, **thr.SPLIT_KW)
+    tw = W.TokenizerWorker(src, observers, validator=val2, **skw)
     s.private.add(id(tw._inbox))
     tw.start_all()
     tw.join()
@@ -115,10 +117,11 @@ def judge(what, obs, fs, regs, joined, sil_bytes):
     return fails
 
 
-def harness(L, what, K, max_pre, max_to):
+def harness(L, what, K, max_pre, max_to, sil0=False):
     mods = L.modules
     core = mods["core"]
     data = thr.tagged_audio(K)
+    skw = dict(thr.SPLIT_KW, max_silence=0) if sil0 else thr.SPLIT_KW
 
     def path(e):
         s = S.Sched(e, max_timeouts=max_to, max_preempt=max_pre)
@@ -129,21 +132,21 @@ def harness(L, what, K, max_pre, max_to):
         e.assume(cb >= 0)
         silq = e.choose(3) * 2 + 1 if "joiner" in what else 0      # 1/4, 3/4, 5/4 samples... see below
         sil_dur = SymRat(z3.IntVal(silq), 4 * thr.SR)                  # quarter samples: 0.25 -> 0, 0.75 -> 1, 1.25 -> 1
-        meta = dict(what=what, K=K, pre=max_pre, to=max_to, silq=silq)
+        meta = dict(what=what, K=K, pre=max_pre, to=max_to, silq=silq, sil0=sil0)
         e.on_budget = lambda m: mk(m, meta, s, cb)
         obs = None
         err = None
         try:
-            obs = run_once(mods, e, s, what, K, data, val, SymRat(cb, thr.SR * thr.BPS), sil_dur, fs)
+            obs = run_once(mods, e, s, what, K, data, val, SymRat(cb, thr.SR * thr.BPS), sil_dur, fs, skw)
         except (S.Outcome, S.ThreadCrashed) as ex:
             err = str(ex)
         finally:
             s.cleanup()
-        regs = sig(list(core.split(data, sr=thr.SR, sw=thr.SW, ch=thr.CH, analysis_window=0.1, validator=thr.window_validator(data), **thr.SPLIT_KW)))
+        regs = sig(list(core.split(data, sr=thr.SR, sw=thr.SW, ch=thr.CH, analysis_window=0.1, validator=thr.window_validator(data), **skw)))
         joined = None
         if "joiner" in what:
             j = core.split_and_join_with_silence(data, sil_dur, sr=thr.SR, sw=thr.SW, ch=thr.CH, analysis_window=0.1,
-                                                 validator=thr.window_validator(data), **thr.SPLIT_KW)
+                                                 validator=thr.window_validator(data), **skw)
             joined = None if j is None else bytes(j.data) if not isinstance(j.data, bytes) else j.data
         nsil = round(silq / 4)
         fails = [err] if err else judge(what, obs, fs, regs, joined, b"\0" * (nsil * thr.BPS))
@@ -178,10 +181,11 @@ def replay_fn(c):
     s = S.Sched(None, max_timeouts=c["to"] + 50, max_preempt=10 ** 6)
     s.script = [tuple(x) for x in c["schedule"]]
     err = obs = None
+    skw = dict(thr.SPLIT_KW, max_silence=0) if c.get("sil0") else thr.SPLIT_KW
     try:
         try:
             obs = run_once(mods, None, s, c["what"], K, data, thr.concrete_validator(data, c["valid"]), c["cache_bytes"] / (thr.SR * thr.BPS),
-                           c["silq"] / (4 * thr.SR), None)
+                           c["silq"] / (4 * thr.SR), None, skw)
         except (S.Outcome, S.ThreadCrashed) as ex:
             err = str(ex)
         finally:
@@ -200,11 +204,11 @@ def replay_fn(c):
                 ent = iostub.WavEntry(b"", None, None, None)
                 ent.finalised = False
                 fs.files[nm] = ent
-        regs = sig(list(core.split(data, sr=thr.SR, sw=thr.SW, ch=thr.CH, analysis_window=0.1, validator=thr.concrete_validator(data, c["valid"]), **thr.SPLIT_KW)))
+        regs = sig(list(core.split(data, sr=thr.SR, sw=thr.SW, ch=thr.CH, analysis_window=0.1, validator=thr.concrete_validator(data, c["valid"]), **skw)))
         joined = None
         if "joiner" in c["what"]:
             j = core.split_and_join_with_silence(data, c["silq"] / (4 * thr.SR), sr=thr.SR, sw=thr.SW, ch=thr.CH, analysis_window=0.1,
-                                                 validator=thr.concrete_validator(data, c["valid"]), **thr.SPLIT_KW)
+                                                 validator=thr.concrete_validator(data, c["valid"]), **skw)
             joined = None if j is None else j.data
         fails = [err] if err else judge(c["what"], obs, fs, regs, joined, b"\0" * (round(c["silq"] / 4) * thr.BPS))
     finally:
@@ -234,7 +238,7 @@ def run(rep):
     rep.assumptions = ["as C12", "wave/open stubs record what is written; replays use real wav files"]
     rep.outside = ["export formats needing ffmpeg/sox", "more windows or pre-emptions than stated"]
     for cf in cfgs:
-        hn = "sched[%s,K=%d,pre=%d,to=%d]" % (cf["what"], cf["K"], cf["pre"], cf["to"])
-        ex = explore(harness(L, cf["what"], cf["K"], cf["pre"], cf["to"]), max_decisions=3000, path_wall_s=30)
+        hn = "sched[%s,K=%d,pre=%d,to=%d%s]" % (cf["what"], cf["K"], cf["pre"], cf["to"], ",max_silence=0" if cf.get("sil0") else "")
+        ex = explore(harness(L, cf["what"], cf["K"], cf["pre"], cf["to"], cf.get("sil0", False)), max_decisions=3000, path_wall_s=30)
         rep.add_exploration(hn, ex, bounds=cf)
         tok.handle_cex(rep, hn, ex, replay_fn)
